@@ -98,7 +98,7 @@ def case_key(c):
     def w(s):
         return (s.get("s"), s.get("e"), s.get("o"), len(s.get("g", []))) if isinstance(s, dict) else None
     return json.dumps([c.get("op"), w(c.get("a")), w(c.get("b")), w(c.get("c")), c.get("share"), c.get("top"), c.get("i"),
-                       c.get("pts") if c.get("op", "").startswith("Ex") else None, c.get("D"), c.get("start"), c.get("shift"), str(c.get("vals"))[:80] if c.get("op") == "ExPotential" else None, c.get("n"), c.get("w"), c.get("order"), c.get("bcs"), c.get("dflt"), len(c.get("y", [])) if isinstance(c.get("y"), list) else None, c.get("x") if c.get("op") == "Interp" else None, c.get("ast"), c.get("e1"), c.get("e2"), c.get("knots"), c.get("p"), c.get("sexp"), c.get("route"), c.get("grid") if c.get("op") == "Gen" else None, [w(f) for f in c.get("fs", [])] if isinstance(c.get("fs"), list) else None])
+                       c.get("pts") if c.get("op", "").startswith("Ex") else None, c.get("D"), c.get("start"), c.get("shift"), c.get("sexp"), c.get("scale") if c.get("op") == "ExDiffusion" else None, str(c.get("vals"))[:80] if c.get("op") == "ExPotential" else None, c.get("n"), c.get("w"), c.get("order"), c.get("bcs"), c.get("dflt"), len(c.get("y", [])) if isinstance(c.get("y"), list) else None, c.get("x") if c.get("op") == "Interp" else None, c.get("ast"), c.get("e1"), c.get("e2"), c.get("knots"), c.get("p"), c.get("sexp"), c.get("route"), c.get("grid") if c.get("op") == "Gen" else None, [w(f) for f in c.get("fs", [])] if isinstance(c.get("fs"), list) else None])
 
 
 class Ctx:
